@@ -47,6 +47,9 @@ RULE = ('cases (max_retries, executor, job sequence on one context); every job h
         'TypeError StopIteration RuntimeError ValueError KeyError IndexError ZeroDivisionError AttributeError -- a subclass '
         'and a base class of each) x every method x position, transient and permanent; the same classes raised by the '
         'user\'s own reduce/fold/seqOp/foreach/map/filter function under 34 methods (oracle only); '
+        'stages with per-task state directly under the action (seeded sample/sampleByKey, zipWithUniqueId, '
+        'zipWithIndex, counting mapPartitionsWithIndex, with a map(identity) control) over a transient upstream fault: '
+        'exact equality with the fault-free run of the same seeded pipeline (oracle only); '
         'exhaustive over the number of failing attempts per partition for <=3 partitions and max_retries 1..4 on three '
         'executors; non-trivial = some attempt fails or some nested operation is attempted; distinct by canonical JSON')
 ASSUMPTIONS = [
@@ -1068,6 +1071,7 @@ def extra_checks(rng, tier, workdir):
             if o is not None:
                 yield ('process-pool:' + o[0], o[1], repr(result)[:600], case)
     yield from user_function_checks(rng, tier)
+    yield from stateful_stage_checks(rng, tier)
 
 
 # ------------------------------------------------------------------ faults raised by the user's own function (oracle only)
@@ -1202,8 +1206,109 @@ def user_function_checks(rng, tier):
         pool.shutdown(wait=True)
 
 
+# ------------------------------------------------------------------ stages with per-task state (oracle only)
+
+def _numbered(i, it):
+    n = 0
+    for x in it:
+        n += 1
+        yield (x, i, n)
+
+
+# the dataset the action runs on directly: (name, build(rdd, seed)); the state of such a stage (the seeded
+# generator of a sample, the running index of a zip, a counter) must start afresh in every attempt
+STATEFUL_STAGES = [
+    ('sample', lambda r, seed: r.sample(False, 0.5, seed)),
+    ('sample-with-replacement', lambda r, seed: r.sample(True, 1.5, seed)),
+    ('sampleByKey', lambda r, seed: r.keyBy(K3).sampleByKey(False, {0: 0.5, 1: 0.6, 2: 0.4}, seed)),
+    ('sampleByKey-with-replacement', lambda r, seed: r.keyBy(K3).sampleByKey(True, {0: 1.2, 1: 0.8, 2: 1.5}, seed)),
+    ('zipWithUniqueId', lambda r, seed: r.zipWithUniqueId()),
+    ('zipWithIndex', lambda r, seed: r.zipWithIndex()),
+    ('mapPartitionsWithIndex-counter', lambda r, seed: r.mapPartitionsWithIndex(_numbered)),
+    ('sample.zipWithUniqueId', lambda r, seed: r.sample(False, 0.6, seed).zipWithUniqueId()),
+    ('sample.persist', lambda r, seed: r.sample(False, 0.5, seed).persist()),
+]
+STATEFUL_ACTIONS = [
+    ('collect', lambda r: r.collect()),
+    ('count', lambda r: r.count()),
+    ('toLocalIterator', lambda r: list(r.toLocalIterator())),
+    ('countByValue', lambda r: sorted(r.countByValue().items())),
+    ('glom.collect', lambda r: r.glom().collect()),
+    ('take(3)', lambda r: r.take(3)),
+]
+ST_STATS = {'stateful_stage_runs': 0}
+
+
+def stateful_stage_checks(rng, tier):
+    """The dataset under the action is a seeded sample()/sampleByKey(), zipWithUniqueId(), zipWithIndex() or a
+    counting mapPartitionsWithIndex(); the stage below it raises (before / mid-partition / after the last element)
+    on the first k attempts of one partition and then succeeds: the result must be EXACTLY the result of the same
+    seeded pipeline without faults (same elements, not only the same number), with k + 1 attempts.  Control: the
+    same with map(identity) on top."""
+    quick = tier == 'quick'
+    pool = ThreadPoolExecutor(8)
+    try:
+        for sname, stage in STATEFUL_STAGES:
+            for pos in (1, 2, 0):
+                for aname, act in STATEFUL_ACTIONS:
+                    for mode in (0, 1, 2):
+                        for control in (False, True):
+                            if quick and rng.random() < 0.5:
+                                continue
+                            maxr = rng.choice([2, 3, 4])
+                            k = rng.randint(1, maxr - 1)
+                            seed = rng.randrange(1000)
+                            style = rng.randrange(2)
+                            n = rng.randint(2, 3)
+                            bad = rng.randrange(n)
+                            datas = [[rng.randint(-20, 20) for _ in range(rng.randint(5, 9))] for _ in range(n)]
+                            exc = rng.choice(EXC_CODES)
+
+                            def run(faulty, maxr=maxr, mode=mode, style=style, datas=datas, bad=bad, k=k, exc=exc, pos=pos,
+                                    stage=stage, seed=seed, control=control, act=act, aname=aname):
+                                lazy_take = aname.startswith('take')
+                                parts = [(d, [(exc, pos)] * k if faulty and i == bad else [], []) for i, d in enumerate(datas)]
+                                sc = pysparkling.Context(pool=pool, max_retries=maxr) if mode and faulty else \
+                                    pysparkling.Context(max_retries=maxr)
+                                ds = Dataset(sc, maxr, mode if faulty else 0, 0, (2 if lazy_take else 0, style, [], [], parts, 0))
+                                ds.barrier = threading.Barrier(len(parts)) if mode == 1 and faulty and not lazy_take else None
+                                try:
+                                    ds.build()
+                                    r = stage(ds.rdd, seed)
+                                    if control:
+                                        r = r.map(lambda x: x)
+                                    return (0, act(r)), ds
+                                except Exception as e:  # pylint: disable=broad-except
+                                    return (1,) + describe_exc(e), ds
+                            want, _ = run(False)
+                            got, ds = run(True)
+                            ST_STATS['stateful_stage_runs'] += 1
+                            case = {'stage': sname + ('.map(identity)' if control else ''), 'action': aname, 'seed': seed,
+                                    'partitions': datas, 'failing partition': bad, 'failing attempts': k, 'max_retries': maxr,
+                                    'position': ['before first', 'mid-partition', 'after last'][pos],
+                                    'exception': EXC[exc].__name__, 'task function': ['generator', 'eager'][style],
+                                    'executor': ['local', 'thread pool (barrier)', 'thread pool'][mode]}
+                            # take(3) over a generator surfaces the first error directly (lazy action): only judge it
+                            # when the stage is computed inside the task (eager function or a materialising stage)
+                            if aname.startswith('take') and not style and 'persist' not in sname and sname != 'zipWithIndex':
+                                continue
+                            if want[0] != 0:
+                                yield ('stateful-stage:reference', f'{sname} / {aname}: the fault-free run failed', repr(want), case)
+                            elif got != want:
+                                yield (f'stateful-stage:result:{sname}',
+                                       f'{case["stage"]} under {aname}: {k} failing attempt(s) {case["position"]} of partition {bad}, '
+                                       f'then success', f'fault-free result {want[1]!r}, with the transient fault {(got[1] if got[0] == 0 else got)!r}', case)
+                            else:
+                                calls = len(ds.log[bad])
+                                if calls != k + 1 and not aname.startswith('take'):
+                                    yield (f'stateful-stage:attempts:{sname}', f'{case["stage"]} under {aname}',
+                                           f'partition {bad} computed {calls} times, expected {k + 1}', case)
+    finally:
+        pool.shutdown(wait=True)
+
+
 def extra_evidence():
-    return dict(PROC_STATS, **FN_STATS, exception_classes=len(EXC), actions=len(ACTIONS), nested_operation_kinds=len(NEST_OPS), lineage_ops=len(OPS))
+    return dict(PROC_STATS, **FN_STATS, **ST_STATS, exception_classes=len(EXC), actions=len(ACTIONS), nested_operation_kinds=len(NEST_OPS), lineage_ops=len(OPS))
 
 
 # ------------------------------------------------------------------ shrinking
